@@ -100,6 +100,49 @@ async def run_history(seq):
     return problems
 
 
+async def ephemeral():
+    """port 0 (the system picks the port): stop - and the clean-up of a failed start - must still find and close that socket"""
+    problems = []
+    loop = asyncio.get_running_loop()
+    endpoints = []
+    orig_create = loop.create_datagram_endpoint
+
+    async def capture(*a, **k):
+        r = await orig_create(*a, **k)
+        endpoints.append(r[0])
+        return r
+    loop.create_datagram_endpoint = capture
+    try:
+        fixed = free_udp_ports(1)[0]
+        b = SwitcherBridge(lambda d: None, [0, fixed])
+        for round_ in range(2):
+            await b.start()
+            await b.stop()
+            await asyncio.sleep(0.01)
+            still = [t for t in endpoints if not t.is_closing()]
+            if still or b.is_running:
+                problems.append(f"ports [0, {fixed}], round {round_ + 1}: {len(still)} socket(s) still open after stop()")
+                break
+        blocker = socket.socket(socket.AF_INET, socket.SOCK_DGRAM)
+        blocker.bind(("0.0.0.0", fixed))
+        del endpoints[:]
+        try:
+            await SwitcherBridge(lambda d: None, [0, fixed]).start()
+            problems.append("start on an occupied port did not raise")
+        except OSError:
+            pass
+        blocker.close()
+        await asyncio.sleep(0.01)
+        still = [t for t in endpoints if not t.is_closing()]
+        if still:
+            problems.append(f"failed start on ports [0, {fixed} (occupied)]: the socket bound for port 0 is left open")
+        for t in endpoints:
+            t.close()
+    finally:
+        loop.create_datagram_endpoint = orig_create
+    return problems
+
+
 ALPHA = ["start_ok", "start_fail0", "start_fail1", "stop", "enter", "leave", "leave_exc"]
 
 
@@ -126,5 +169,8 @@ def run_case(c):
             p = asyncio.run(run_history(seq))
             if p:
                 return {"ok": False, "evaluations": n + 1, "detail": p, "case": {"prop": "C17", "kind": "history", "inputs": {"seq": seq}}}
-        return {"ok": True, "evaluations": i["n"]}
+        p = asyncio.run(ephemeral())
+        if p:
+            return {"ok": False, "evaluations": i["n"] + 1, "detail": p}
+        return {"ok": True, "evaluations": i["n"] + 1}
     raise ValueError(k)
